@@ -1,6 +1,6 @@
 CONSTANTS WeekLen = 2016  Accept = 432  RotTrigger = 3200  CatchUpBound = 4000  CapPct = 135
  Defects = {}
- Strict = {"RecvReport"}
+ Strict = {"RecvReport", "UDPPairing"}
  InvSel = {"SlotIsFunctionOfSet", "IndexInBounds", "BanSticky"}
  DiagLine = @DiagLine@
 SPECIFICATION TSpec
